@@ -37,6 +37,9 @@ type RecFetcher struct {
 	HasDefault bool
 	Default    interface{}
 	AvailHash  bool // availability decided by a hash of the name (for names the harness does not know)
+	// MarkerDNE: an unavailable bound name is reported as cached and its value is the DNE marker (the way a value map
+	// given to NewCtxFromVars marks a variable as unknown) instead of being reported as not cached.
+	MarkerDNE bool
 }
 
 func (f *RecFetcher) Get(k eval.VariableKey, s string) (eval.Value, error) {
@@ -51,6 +54,9 @@ func (f *RecFetcher) Get(k eval.VariableKey, s string) (eval.Value, error) {
 	v, ok := f.Vals[s]
 	if !ok && f.HasDefault {
 		return f.Default, nil
+	}
+	if ok && f.MarkerDNE && f.Avail != nil && !f.Avail[s] {
+		return eval.DNE, nil
 	}
 	if !ok || (f.Avail != nil && !f.Avail[s]) {
 		return nil, ErrUnbound
@@ -67,7 +73,7 @@ func (f *RecFetcher) Cached(k eval.VariableKey, s string) bool {
 	}
 	_, ok := f.Vals[s]
 	if f.Avail != nil {
-		return ok && f.Avail[s]
+		return ok && (f.Avail[s] || f.MarkerDNE)
 	}
 	return ok
 }
